@@ -257,6 +257,8 @@ def fill_deck(rnd, depth=1, reuse=False, spelling=None, inner='slab', nsym=3):
     done_universes = set()
     conts = []
     c1 = new_cell(expr=container('a'), imp=1)
+    if rnd.random() < 0.4:
+        c1.mat, c1.rho = mat()          # a filled cell may carry a material: the fillers' materials count
     conts.append(c1)
     if reuse:
         # a second container filled with the SAME universe (it may overlap the first: labels are compared one
@@ -295,7 +297,7 @@ def like_deck(rnd, scenario, nsym=3):
                     b['mat'] = str(m)
                     b['rho'] = rho
                 elif k == 'rho':
-                    b['rho'] = rnd.choice(['-3.1', '-0.5', '1.5'])
+                    b['rho'] = rnd.choice(['-3.1', '-0.5', '1.5', '-3.10', '-0.500', '1.50', '-3.1+0', '1.5e0', '-5.0-1'])
                 elif k == 'trcl':
                     b['trcl'] = rand_tr(rnd, 'k%d' % len(d.cells), pre, budget=bud, rot=rnd.random() < 0.4)
                 elif k == 'imp':
